@@ -14,9 +14,9 @@ pub fn prop() -> Prop {
         id: "C33", title: "Keyboard and display deliver bytes exactly once under lock contention", level: "fault_enumeration",
         rule: "Echo programs built on the OS traps (GETC+OUT loop followed by PUTS; IN; PUTS/PUTSP only) run on a Simulator with BufferedKeyboard/BufferedDisplay while the harness holds the keyboard and/or display buffer write lock for the duration of chosen step_in calls \
                (a try_write by the simulator on the same thread reports WouldBlock, which is exactly 'another thread holds the lock between two instruction boundaries', with the lock state known at every boundary). \
-               Phase 0: EXHAUSTIVE single hold windows: every boundary x {keyboard, display, both} for inputs of 1-3 bytes. Phase 1: pairs of hold windows (all pairs for 1-byte inputs in thorough, sampled otherwise) and windows of 2-6 consecutive boundaries. Phase 2: random hold patterns (density 1/2 .. 1/50) on inputs of 4-40 bytes. \
-               Oracle: the bytes the program receives (R0 at every GETC/IN return) equal the queued input, in order, each once; the keyboard queue is empty at the end; the display equals exactly the expected output. Every divergence is classified by what the held lock covered at the first divergence: \
-               a DDR store, a KBDR load (the two known findings), or neither (always a violation). Phase 3: a real second thread takes the locks at random while run() executes; checked there: no panic, the display is a subsequence of the expected output (no duplicate/reordered byte) and the unread keyboard bytes are a suffix of the input. \
+               Phase 0: EXHAUSTIVE single hold windows: every boundary x {keyboard write lock, display write lock, both, keyboard read lock, display read lock} for inputs of 1-3 bytes. Phase 1: pairs of hold windows (all pairs for 1-byte inputs in thorough, sampled otherwise) and windows of 2-6 consecutive boundaries. Phase 2: random hold patterns (density 1/2 .. 1/50) on inputs of 4-40 bytes. \
+               Oracle: the bytes the program receives (R0 at every GETC/IN return) equal the queued input, in order, each once; the keyboard queue is empty at the end; the display equals exactly the expected output. A status register (KBSR/DSR) read while the corresponding buffer is locked (read or write lock) must not report ready. Every divergence is classified by what the held lock covered at the first divergence: \
+               a DDR store, a KBDR load (the two known findings), or neither (always a violation). Phase 3: a real second thread takes the locks at random while run() executes; checked there (invariants that hold under every schedule even with the known findings): no panic; an output-only program's display is a subsequence of the expected output (no duplicate/reordered byte); an input-only program receives the queued bytes in order, possibly with stale repeats, and the unread bytes are a suffix of the input. \
                Phase 4 (also the Miri/TSan workload): the devices driven directly through ExternalDevice with a contending thread. Non-trivial = run in which a lock was held during at least one step; distinct = (program, input, hold pattern).",
         assumptions: &["the simulator never blocks on the buffer locks (try_write), so boundary-granular hold patterns cover every interleaving a second thread can produce with respect to simulator instructions", "programs wait for KBSR/DSR readiness through the OS traps"],
         exhaustive: never, run, guard,
@@ -29,8 +29,9 @@ pub fn prop() -> Prop {
 }
 
 #[derive(Clone, Copy, Debug, PartialEq, Eq)]
-enum Hold { None, Kbd, Disp, Both }
-impl Hold { fn kbd(self) -> bool { matches!(self, Hold::Kbd | Hold::Both) } fn disp(self) -> bool { matches!(self, Hold::Disp | Hold::Both) } }
+enum Hold { None, Kbd, Disp, Both, KbdRead, DispRead }
+impl Hold { fn kbd(self) -> bool { matches!(self, Hold::Kbd | Hold::Both | Hold::KbdRead) } fn disp(self) -> bool { matches!(self, Hold::Disp | Hold::Both | Hold::DispRead) } fn read_only(self) -> bool { matches!(self, Hold::KbdRead | Hold::DispRead) } }
+const HOLDS: [Hold; 5] = [Hold::Kbd, Hold::Disp, Hold::Both, Hold::KbdRead, Hold::DispRead];
 
 #[derive(Clone, Debug)]
 struct Prog { text: String, expect_out: Vec<u8>, name: &'static str, reads: usize }
@@ -43,7 +44,7 @@ fn programs(input: &[u8], which: u64) -> Prog {
     }
 }
 
-struct Outcome { received: Vec<u16>, display: Vec<u8>, kbd_left: Vec<u8>, steps: u64, ended: &'static str, kbdr_under_lock: u64, ddr_under_lock: u64, held_steps: u64, status_under_lock: u64 }
+struct Outcome { status_ready_under_lock: Option<String>, received: Vec<u16>, display: Vec<u8>, kbd_left: Vec<u8>, steps: u64, ended: &'static str, kbdr_under_lock: u64, ddr_under_lock: u64, held_steps: u64, status_under_lock: u64 }
 
 fn run_sched(p: &Prog, input: &[u8], sched: &dyn Fn(u64) -> Hold) -> Option<Outcome> {
     let mut sim = Simulator::new(SimFlags { machine_init: MachineInitStrategy::Known { value: 0 }, ..Default::default() });
@@ -52,7 +53,7 @@ fn run_sched(p: &Prog, input: &[u8], sched: &dyn Fn(u64) -> Hold) -> Option<Outc
     let ast = lc3_ensemble::parse::parse_ast(&p.text).ok()?;
     let obj = lc3_ensemble::asm::assemble(ast).ok()?;
     sim.load_obj_file(&obj).ok()?;
-    let mut o = Outcome { received: vec![], display: vec![], kbd_left: vec![], steps: 0, ended: "step-bound", kbdr_under_lock: 0, ddr_under_lock: 0, held_steps: 0, status_under_lock: 0 };
+    let mut o = Outcome { status_ready_under_lock: None, received: vec![], display: vec![], kbd_left: vec![], steps: 0, ended: "step-bound", kbdr_under_lock: 0, ddr_under_lock: 0, held_steps: 0, status_under_lock: 0 };
     for k in 0..40_000u64 {
         let h = sched(k);
         let pc0 = sim.pc;
@@ -60,12 +61,21 @@ fn run_sched(p: &Prog, input: &[u8], sched: &dyn Fn(u64) -> Hold) -> Option<Outc
         // which I/O register does this instruction address (LDI/STI through a pointer cell)?
         let target = if w >> 12 == 0b1010 || w >> 12 == 0b1011 { let off = ((w & 0x1FF) as i16) << 7 >> 7; Some(sim.mem[pc0.wrapping_add(1).wrapping_add(off as u16)].get()) } else { None };
         let was_trap_return = sim.psr().privileged() && w == 0x8000; // RTI
-        let (gk, gd);
-        { gk = if h.kbd() { Some(kb.get_buffer().write().unwrap()) } else { None }; gd = if h.disp() { Some(ds.get_buffer().write().unwrap()) } else { None }; }
+        // write guards, or (KbdRead/DispRead) read guards as a reader of the buffer would hold
+        let (gk, gd, gkr, gdr);
+        { gk = if h.kbd() && !h.read_only() { Some(kb.get_buffer().write().unwrap()) } else { None }; gd = if h.disp() && !h.read_only() { Some(ds.get_buffer().write().unwrap()) } else { None };
+          gkr = if h == Hold::KbdRead { Some(kb.get_buffer().read().unwrap()) } else { None }; gdr = if h == Hold::DispRead { Some(ds.get_buffer().read().unwrap()) } else { None }; }
         if h != Hold::None { o.held_steps += 1; match target { Some(0xFE02) if h.kbd() => o.kbdr_under_lock += 1, Some(0xFE06) if h.disp() => o.ddr_under_lock += 1, Some(0xFE00) if h.kbd() => o.status_under_lock += 1, Some(0xFE04) if h.disp() => o.status_under_lock += 1, _ => {} } }
         let (i0, d0) = (sim.instructions_run, sim.frame_stack.len());
         let r = sim.step_in();
-        drop(gk); drop(gd);
+        drop(gk); drop(gd); drop(gkr); drop(gdr);
+        // a status register polled while the buffer is locked must not report ready: the data access that follows could not be served
+        if w >> 12 == 0b1010 && r.is_ok() {
+            let dr = ((w >> 9) & 7) as usize;
+            let v = sim.reg_file[reg(dr)].get();
+            match target { Some(0xFE04) if h.disp() && v & 0x8000 != 0 && o.status_ready_under_lock.is_none() => o.status_ready_under_lock = Some(format!("display:{h:?}: DSR read x{v:04X} at step {k} while the display buffer was locked")),
+                           Some(0xFE00) if h.kbd() && v & 0x8000 != 0 && o.status_ready_under_lock.is_none() => o.status_ready_under_lock = Some(format!("keyboard:{h:?}: KBSR read x{v:04X} at step {k} while the keyboard buffer was locked")), _ => {} }
+        }
         o.steps += 1;
         if r.is_err() { o.ended = "error"; break; }
         // a GETC/IN returned to user code: R0 is what the program received
@@ -99,6 +109,11 @@ fn account(ctx: &mut Ctx, p: &Prog, input: &[u8], o: &Outcome, sched_desc: &str)
     ctx.count_n("steps.lock-held.data-access", o.kbdr_under_lock + o.ddr_under_lock);
     ctx.count_n("bytes.received", o.received.len() as u64);
     ctx.count_n("bytes.displayed", o.display.len() as u64);
+    if let Some(s) = &o.status_ready_under_lock {
+        let dev = s.split(':').next().unwrap_or("");
+        ctx.violation(&format!("status-reports-ready-while-lock-held:{dev}:{}", if s.contains("Read") { "read-lock" } else { "write-lock" }), format!("{s} [{sched_desc}]"), Json::obj().set("program", p.text.as_str()).set("input", format!("{input:?}")).set("schedule", sched_desc));
+        return false;
+    }
     match judge(p, input, o) {
         None => { ctx.count(&format!("runs.exactly-once.{}", p.name)); true }
         Some((sig, d)) => {
@@ -121,7 +136,7 @@ fn run(ctx: &mut Ctx) {
         if judge(&p, input, &base).is_some() { ctx.violation("uncontended-run-wrong", "the program does not echo correctly without any contention", Json::obj().set("program", p.text.as_str())); return; }
         let nb = base.steps;
         ctx.count_n("exhaustive.boundaries", nb);
-        for b in 0..nb { for h in [Hold::Kbd, Hold::Disp, Hold::Both] {
+        for b in 0..nb { for h in HOLDS {
             let Some(o) = run_sched(&p, input, &|k| if k == b { h } else { Hold::None }) else { continue };
             ctx.nontrivial(crate::rng::hash64(&[c, b, h as u64]));
             account(ctx, &p, input, &o, &format!("hold {h:?} during step {b}"));
@@ -138,8 +153,8 @@ fn run(ctx: &mut Ctx) {
         let nb = base.steps;
         let all_pairs = npairs == 0 && input.len() == 1;
         let mut todo: Vec<(u64, u64, Hold, Hold, u64)> = vec![];
-        if all_pairs { for b1 in 0..nb { for b2 in b1 + 1..nb + 6 { for h1 in [Hold::Kbd, Hold::Disp] { for h2 in [Hold::Kbd, Hold::Disp] { todo.push((b1, b2, h1, h2, 1)); } } } } }
-        else { let k = if npairs == 0 { 20_000 } else { npairs / combos.len() as u64 }; for _ in 0..k { let b1 = rng.below(nb); let b2 = b1 + rng.below(12); let hs = [Hold::Kbd, Hold::Disp, Hold::Both]; todo.push((b1, b2, *rng.pick(&hs), *rng.pick(&hs), 1 + rng.below(6))); } }
+        if all_pairs { for b1 in 0..nb { for b2 in b1 + 1..nb + 6 { for h1 in [Hold::Kbd, Hold::Disp, Hold::DispRead] { for h2 in [Hold::Kbd, Hold::Disp, Hold::KbdRead] { todo.push((b1, b2, h1, h2, 1)); } } } } }
+        else { let k = if npairs == 0 { 20_000 } else { npairs / combos.len() as u64 }; for _ in 0..k { let b1 = rng.below(nb); let b2 = b1 + rng.below(12); let hs = HOLDS; todo.push((b1, b2, *rng.pick(&hs), *rng.pick(&hs), 1 + rng.below(6))); } }
         for (b1, b2, h1, h2, len) in todo {
             let Some(o) = run_sched(&p, input, &|k| if k >= b1 && k < b1 + len { h1 } else if k >= b2 && k < b2 + len { h2 } else { Hold::None }) else { continue };
             ctx.nontrivial(crate::rng::hash64(&[c, b1, b2, h1 as u64, h2 as u64, len]));
@@ -154,19 +169,23 @@ fn run(ctx: &mut Ctx) {
         let p = programs(&input, idx);
         let density = *rng.pick(&[2u64, 3, 5, 10, 25, 50]);
         let seed = rng.next();
-        let only = *rng.pick(&[Hold::Both, Hold::Kbd, Hold::Disp, Hold::None]);
-        let sched = move |k: u64| { let mut r = Rng::new(seed ^ k.wrapping_mul(0x9E3779B97F4A7C15)); if r.chance(1, density) { match only { Hold::None => *r.pick(&[Hold::Kbd, Hold::Disp, Hold::Both]), h => h } } else { Hold::None } };
+        let only = *rng.pick(&[Hold::Both, Hold::Kbd, Hold::Disp, Hold::None, Hold::None, Hold::KbdRead, Hold::DispRead]);
+        let sched = move |k: u64| { let mut r = Rng::new(seed ^ k.wrapping_mul(0x9E3779B97F4A7C15)); if r.chance(1, density) { match only { Hold::None => *r.pick(&HOLDS), h => h } } else { Hold::None } };
         let Some(o) = run_sched(&p, &input, &sched) else { return };
         ctx.nontrivial(crate::rng::hash64(&[seed, density, idx]));
         account(ctx, &p, &input, &o, &format!("random holds, density 1/{density}, kinds {only:?}, seed {seed}"));
         ctx.count("random.programs");
         if ctx.want_sample() && input.len() < 8 { ctx.sample(Json::obj().set("program", p.text.as_str()).set("input", format!("{input:?}")).set("schedule", format!("random holds, density 1/{density}")).set("display", format!("{:?}", String::from_utf8_lossy(&o.display))).set("steps_with_lock_held", o.held_steps)); }
     });
-    // phase 3: a real contending thread
+    // phase 3: a real contending thread. Outcomes are schedule-dependent, so only invariants that hold on the unchanged code under
+    // every schedule (including the two known findings) are checked: an output-only program may lose bytes but never duplicates or
+    // reorders them; an input-only program receives the queued bytes in order, possibly interleaved with stale repeats of the last
+    // delivered byte, and what is left in the queue is a suffix of the input.
     let n = ctx.tier.pick_exact(60, 3_000);
     ctx.cases(3, n, |ctx, rng, idx| {
         let input: Vec<u8> = (0..8 + rng.usize(24)).map(|_| 1 + rng.below(255) as u8).collect();
-        let p = programs(&input, idx);
+        let output_only = idx % 2 == 0;
+        let p = if output_only { programs(&input, 2) } else { Prog { text: format!(".orig x3000\nLD R1, N\nLEA R2, BUF\nLOOP GETC\nSTR R0, R2, #0\nADD R2, R2, #1\nADD R1, R1, #-1\nBRp LOOP\nHALT\nN .fill {}\nBUF .blkw 64\n.end\n", input.len()), expect_out: vec![], name: "getc-store", reads: input.len() } };
         let mut sim = Simulator::new(SimFlags { machine_init: MachineInitStrategy::Known { value: 0 }, ..Default::default() });
         let kb = BufferedKeyboard::default(); kb.get_buffer().write().unwrap().extend(input.iter().copied()); sim.device_handler.set_keyboard(kb.clone());
         let ds = BufferedDisplay::default(); sim.device_handler.set_display(ds.clone());
@@ -183,12 +202,27 @@ fn run(ctx: &mut Ctx) {
         match r { Err(pi) => { ctx.violation(&format!("threaded:panic:{}", pi.sig()), pi.msg, case()); return; } Ok(Err(e)) => { ctx.violation("threaded:error", err_kind(&e).to_string(), case()); return; } Ok(Ok(())) => {} }
         let display = ds.get_buffer().read().unwrap().clone();
         let left: Vec<u8> = kb.get_buffer().read().unwrap().iter().copied().collect();
-        // weak invariants that hold even when the known findings strike
-        let mut it = p.expect_out.iter();
-        if !display.iter().all(|b| it.any(|e| e == b)) { ctx.violation("threaded:display-not-a-subsequence", format!("display {:?} is not a subsequence of the expected output {:?} (duplicate or reordered byte)", display, p.expect_out), case()); return; }
-        if !input.ends_with(&left) { ctx.violation("threaded:keyboard-not-consumed-in-order", format!("unread keyboard bytes {left:?} are not a suffix of the input"), case()); return; }
+        let exact;
+        if output_only {
+            let mut it = p.expect_out.iter();
+            if !display.iter().all(|b| it.any(|e| e == b)) { ctx.violation("threaded:display-not-a-subsequence", format!("display {:?} is not a subsequence of the expected output {:?} (duplicate or reordered byte)", display, p.expect_out), case()); return; }
+            if left != input { ctx.violation("threaded:keyboard-touched-by-output-program", "an output-only program consumed keyboard input", case()); return; }
+            exact = display == p.expect_out;
+        } else {
+            if !input.ends_with(&left) { ctx.violation("threaded:keyboard-not-consumed-in-order", format!("unread keyboard bytes {left:?} are not a suffix of the input"), case()); return; }
+            let buf = 0x3000 + 9u16;
+            let got: Vec<u16> = (0..input.len() as u16).map(|i| sim.mem[buf + i].get()).collect();
+            // walk: each received value is the next queued byte, or a stale repeat of the last delivered one (0 before any)
+            let (mut i, mut last) = (0usize, 0u16);
+            for (k, v) in got.iter().enumerate() {
+                if i < input.len() && *v == input[i] as u16 { last = *v; i += 1; } else if *v == last { /* stale mirror (known finding) */ } else { ctx.violation("threaded:received-byte-out-of-order", format!("value {k} received by the program is x{v:04X}: neither the next queued byte nor a stale repeat (received {got:04X?}, input {input:?})"), case()); return; }
+            }
+            if i + left.len() != input.len() { ctx.violation("threaded:keyboard-bytes-lost", format!("{} bytes delivered + {} left != {} queued", i, left.len(), input.len()), case()); return; }
+            if !display.is_empty() { ctx.violation("threaded:display-touched-by-input-program", "an input-only program produced output", case()); return; }
+            exact = i == input.len() && left.is_empty();
+        }
         ctx.nontrivial(seed);
-        ctx.count(if display == p.expect_out && left.is_empty() { "threaded.exactly-once" } else { "threaded.bytes-lost-under-contention" });
+        ctx.count(if exact { "threaded.exactly-once" } else { "threaded.bytes-lost-under-contention" });
         ctx.count_n("threaded.lock-grabs", grabs);
     });
     // phase 4: devices driven directly with a contending thread (this is what runs under Miri and TSan)
